@@ -43,6 +43,7 @@ func main() {
 	tags := flag.String("tags", "verif", "")
 	caseLimit := flag.String("caselimit", "", "per-harness case count limits: VfH_a=5,VfH_b=3 (cases 0..n-1 are run)")
 	stubs := flag.String("stubstr", "", "comma separated functions (ssa full names) returning string that are replaced by an opaque placeholder: formatting is not the subject")
+	stubz := flag.String("stubzero", "", "comma separated functions (ssa full names) replaced by a stub returning zero values")
 	trace := flag.Bool("trace", false, "log target panics to stderr")
 	flag.Parse()
 
@@ -94,7 +95,7 @@ func main() {
 	o.Limits = map[string]int64{"max_paths": int64(lim.MaxPaths), "max_decisions_per_path": int64(lim.MaxDecisions),
 		"max_steps_per_path": lim.MaxSteps, "branch_timeout_ms": lim.BranchTimeout.Milliseconds(), "assert_timeout_ms": lim.AssertTimeout.Milliseconds()}
 	res, err := gosym.RunAll(prog, *pkg, hs, *onlyCase, gosym.Options{Jobs: *jobs, Solver: *solver, Lim: lim,
-		CaseLimit: parseLimits(*caseLimit), StubStr: splitList(*stubs), MaxSamples: *maxSamples, SMTLogDir: *smtlog, TaskTimeout: *taskTO, Trace: *trace})
+		CaseLimit: parseLimits(*caseLimit), StubStr: splitList(*stubs), StubZero: splitList(*stubz), MaxSamples: *maxSamples, SMTLogDir: *smtlog, TaskTimeout: *taskTO, Trace: *trace})
 	if err != nil {
 		fail(err)
 	}
